@@ -53,6 +53,14 @@ CHECKS = {
          "Trusted: the hand-transcribed decode table and the two cross-checked reference ALUs; register/immediate choices are representatives, not all 32^3 combinations.",
          "DESIGN.md 3 C08"),
 
+ "C13": ("bounded-exhaustive enumeration of (program x subset of meaning-preserving rewrites); relational oracle: diagnostic multiset by (code, statement index, operand role) invariant",
+         "Program pool (every 293rd / 13th member of the quick S family, clean and with one injected violation of each of 14 classes) x every compatible subset of <= 2 / <= 3 of 13 rewrite kinds (spacing, tabs, commas removed/doubled, comments, blank lines, mnemonic case, xN register names, hex/binary immediates, label placement, omitted zero offset, pseudo-instruction vs expansion), applied at all sites by a styled printer working on the harness AST; the multiset of (error code, statement index, semantic operand role) of the real pipeline's diagnostics must equal the plain rendering's.",
+         "Trusted: styled printer and role mapping (implicit registers of pseudo-instructions are identified with the explicit operand of their expansion). Rewrites outside the list (macros, .eqv) are unsupported by the tool.",
+         "DESIGN.md 3 C13"),
+ "C14": ("bounded-exhaustive enumeration of register-class permutation orbits and label renamings per template; relational (equivariance) oracle",
+         "Templates = program pool (every 499th / 41st member of the quick S family, clean and injected): the full orbit of the temporaries a template mentions (all injective assignments of <= 3 slots to t0-t6), the full orbit of its saved registers (<= 3 slots to s0-s11, up to 1320) and label renamings from an 8-identifier pool; the diagnostics of every renamed program, compared by (code, statement index, operand role, register mapped back), must equal the template's.",
+         "Trusted: renaming on the harness AST. Canonical hash-order schedule (label hash order is C10's subject).",
+         "DESIGN.md 3 C14"),
  "C17": ("bounded-exhaustive enumeration of literal spellings against independent literal semantics",
          "Complete enumeration of a finite family: ~8000 spellings (every boundary value 2^k, 2^k+-1 for k<=33 and bit patterns x decimal/hex/binary notation x sign x letter case x leading zeros, every printable ASCII character literal and escape, malformed spellings) x 4 operand contexts (li, lui, .word, csrr), each through the real lexer+parser and, for li/lui, the resulting Constant fact of the value analysis, in a release and an overflow-checked build; acceptance, value and error location are compared with literal semantics written in the harness.",
          "Trusted: the harness's literal semantics (accept iff well-formed and -2^31 <= v <= 2^32-1; value v mod 2^32; lui 0..2^20-1). Values between the boundary points are not enumerated. Leading-zero decimals, negative lui operands and CSR numbers > 4095 get no verdict.",
